@@ -25,7 +25,7 @@ T == Table(<<"t">>, "")
 Inners == << SelQ(<<Star>>, T, None),
              SelQ(<<I(A), I(G)>>, T, CmpE(">", A, LN(1))),
              [SelQ(<<I(G), Item(Agg("count", <<>>), "k"), Item(Agg("sum", <<"a">>), "a")>>, T, None) EXCEPT !.group = <<"g">>],
-             [SelQ(<<I(A), I(G)>>, T, None) EXCEPT !.order = <<[key |-> <<"a">>, asc |-> FALSE]>>, !.limit = 2],
+             [SelQ(<<I(A), I(G)>>, T, None) EXCEPT !.order = <<[key |-> <<"a">>, asc |-> FALSE], [key |-> <<"g">>, asc |-> TRUE]>>, !.limit = 2],   \* a total order: no ties
              [SelQ(<<I(G)>>, T, None) EXCEPT !.distinct = TRUE],
              SelQ(<<Item(Bin("+", A, LN(1)), "a"), I(G)>>, T, None),
              SelQ(<<I(A), I(G)>>, T, CmpE(">", A, LN(100))) >>
